@@ -53,9 +53,10 @@ func (valdec arrayDecoder) Decode(dec *Decoder, p interface{}, tag byte) {
 				valdec.at.UnsafeSetIndex(array, i, valdec.emptyElem)
 			}
 		case n < count:
-			temp := valdec.et.UnsafeNew()
 			for i := n; i < count; i++ {
-				valdec.decodeElem(dec, et, temp)
+				// a slot of its own: what is decoded into it may have been
+				// registered for later references
+				valdec.decodeElem(dec, et, valdec.et.UnsafeNew())
 			}
 		}
 		dec.Skip()
